@@ -36,6 +36,9 @@ func VerifC38Counters() {
 	caps := NewDefaultServerCapabilities()
 	caps.MaximumMessageExpiryInterval = 100
 	caps.MaximumClientWritesPending = int32(vParam("QUEUE", 1))
+	if vParam("LIMIT", 0) == 1 {
+		caps.MaximumClients = 1 // further connection attempts are refused: a refusal must leave the counter alone
+	}
 	s, _ := vNewServer(&Options{Capabilities: caps})
 	ver := byte(vConcrete(int(vByteIn("\x04\x05")), 4, 5))
 	// receive maximum 1: the second unacknowledged QoS 1 message is held back by flow control
@@ -47,7 +50,17 @@ func VerifC38Counters() {
 	pid := uint16(1)
 	steps := vParam("STEPS", 3)
 	for i := 0; i < steps; i++ {
-		switch vChoose(8) {
+		nk := 8
+		if vParam("LIMIT", 0) == 1 {
+			nk = 9
+		}
+		switch vChoose(nk) {
+		case 8: // another client tries to connect while the limit is reached (or not, if c1 is away)
+			c2 := vDial(s, vConnOpts{ver: ver, id: "c2", clean: true, keepalive: 60})
+			w2 := vParseWire(vConnWritten(c2), ver)
+			if len(w2.Pkts) >= 1 && w2.Pkts[0].Type == packets.Connack && w2.Pkts[0].Reason == 0 {
+				vHangup(c2) // admitted (c1 was away): it leaves again at once
+			}
 		case 7: // a burst of two QoS 1 messages before the write loop runs: the second may find the queue full
 			for k := 0; k < 2; k++ {
 				s.publishToSubscribers(packets.Packet{FixedHeader: packets.FixedHeader{Type: packets.Publish, Qos: 1}, TopicName: "t", Payload: []byte{byte(k)}, Origin: "pub"})
